@@ -162,7 +162,34 @@ def check_c01_c02(c, result):
             exp *= bykind[kind]
         if sum(tup.values()) != exp or any(v != 1 for v in tup.values()) and False:
             result.violations.append(payload_replay(pid, 'a query without WHERE does not report exactly the cross product', [t], 'expected %d combinations, got %d' % (exp, sum(tup.values())), c.files))
-    c.samples += [t for _, t in tq2[:2]] + [tq[5][1]]
+    # (4) large candidate sets: two populous kinds, mostly-true conditions (thousands of combinations)
+    big = Campaign(pid + 'big', c.tier, c.seed + 3, c.work + '/big', nfiles=12 if c.tier == 'quick' else 25)
+    bykind_b = Counter(engine.hexs(n['type']) for n in big.nodes)
+    populous = [k for k in querygen.KINDS if bykind_b.get(k, 0) >= 25 and querygen.KINDS[k][0]]
+    tq4, k4 = [], {}
+    for i in range(10 if c.tier == 'quick' else 120):
+        if len(populous) >= 2 and i % 3 != 2:
+            k1, k2 = big.rng.sample(populous, 2)
+            a1, a2 = querygen.KINDS[k1][0][0], querygen.KINDS[k2][0][0]
+            cond = big.rng.choice(['x.%s() != "zz9"' % a1, 'x.%s() != y.%s()' % (a1, a2), '!(x.%s() == "nope") && y.%s() != "zz9"' % (a1, a2), None])
+            q = 'FROM %s AS x, %s AS y %sSELECT x.%s(), y.%s()' % (k1, k2, ('WHERE %s ' % cond) if cond else '', a1, a2)
+            k4['g%d' % i] = 2
+        else:
+            k1 = max(bykind_b, key=lambda k: bykind_b[k] if k in querygen.KINDS and querygen.KINDS[k][0] else 0)
+            a1 = querygen.KINDS[k1][0][0]
+            q = 'FROM %s AS x WHERE x.%s() != "zz9" SELECT x' % (k1, a1)
+            k4['g%d' % i] = 1
+        tq4.append(('g%d' % i, q))
+    res4, ip4, _ = big.run(tq4)
+    model4 = big.model(tq4)
+    big.tie(tq4, res4, ip4, model4, result)
+    big.pid = pid
+    oracle(big, tq4, res4, model4, result, big.files, k4)
+    c.stats['large_queries'] = len(tq4)
+    c.stats['large_max_candidates'] = max([len(m.get('spectuples', [])) for m in model4.values()] + [0])
+    for k_, v in big.stats.items():
+        c.stats['large_' + k_] = v
+    c.samples += [t for _, t in tq2[:2]] + [tq[5][1], tq4[0][1]]
 
 
 def oracle(c, tq, res, model, result, files, kmap):
